@@ -446,7 +446,7 @@ def run_child(kind, path, watch_dir, kill_at=0, log=None, script=None, cwd=None)
     return r.returncode, r.stderr.decode("utf-8", "replace")[-300:]
 
 
-def syscall_kill_points(kind, make_dir, judge, threads=8, script=None):
+def syscall_kill_points(kind, make_dir, judge, threads=8, script=None, sample=None):
     """Kill a real server start-up process right before each of its file-system
     operations (LD_PRELOAD shim), in turn.  make_dir(tag) -> (dir, dbpath) prepares
     the scenario; judge(dir, label) checks what the kill left behind.
@@ -476,10 +476,23 @@ def syscall_kill_points(kind, make_dir, judge, threads=8, script=None):
         return k, dd, rc, err
     from concurrent.futures import ThreadPoolExecutor
     with ThreadPoolExecutor(max_workers=threads) as ex:
-        ran = list(ex.map(one, range(1, len(ops) + 1)))
+        ks = list(range(1, len(ops) + 1))
+        if sample is not None and len(ks) > sample:
+            # the first and last operations and an even spread in between
+            edge = sample // 4
+            mid = ks[edge:-edge]
+            step = max(1, len(mid) // (sample - 2 * edge))
+            ks = ks[:edge] + mid[::step] + ks[-edge:]
+        ran = list(ex.map(one, ks))
     results = []
     for (k, dd, rc, err) in ran:
         try:
+            if rc == -1:
+                # the child could not be run to its end (time-out on a loaded machine): once more, alone
+                shutil.rmtree(dd, ignore_errors=True)
+                k, dd, rc, err = one(k)
+                if rc == -1:
+                    raise RuntimeError("kill point %d: child process could not be run: %s" % (k, err))
             if rc != 137:
                 results.append((k, "kill point %d (%s): child ended with status %s instead of being killed: %s"
                                 % (k, ops[k - 1], rc, err)))
